@@ -39,7 +39,7 @@ ASSUMPTIONS = [
     "vf/gen_graph.py renders the same function from the same program data in every process",
 ]
 MIN_COUNTERS = {
-    'quick': {'failing_builds_callee-base': 15, 'distinct_functions_cut_short_by_a_fault': 10,
+    'quick': {'failing_builds_callee-base': 15, 'shared_argument_cases_with_prepend_list': 25, 'distinct_functions_cut_short_by_a_fault': 10,
               'programs_compared': 250, 'comparisons': 1200, 'failing_builds': 150,
               'residue_checks': 450, 'concurrent_builds': 200,
               'concurrent_serialisations': 100, 'shared_argument_cases': 100,
@@ -553,22 +553,36 @@ def shared_args_case(ns, rng, acc, where):
     lags = [rng.choice([0, 0.1, 0.3, 0.5, None, 'kr']) for _ in range(rng.randint(1, 5))]
     first_fails = rng.random() < 0.3
     shared = list(lags)
+    # ... and, in half of the cases, a `prepend` list object (values handed to
+    # the first parameters instead of controls) kept by the caller as well
+    pre = [rng.choice([0.25, 2, 440.0]) for _ in range(rng.randint(1, min(na, nb)))] \
+        if rng.random() < 0.5 else None
+    shared_pre = None if pre is None else list(pre)
+    kw = {} if pre is None else {'prepend': shared_pre}
     try:
-        SynthDef('vfa', mk('vfa', ann_a, first_fails), rates=shared)
+        SynthDef('vfa', mk('vfa', ann_a, first_fails), rates=shared, **kw)
     except Exception:
         pass
     out = []
-    for rates in (shared, list(lags)):
+    for rates, pp in ((shared, shared_pre), (list(lags), None if pre is None else list(pre))):
         try:
+            kw = {} if pp is None else {'prepend': pp}
             out.append(hashlib.sha256(bytes(
-                SynthDef('vfb', mk('vfb', ann_b), rates=rates).as_bytes())).hexdigest())
+                SynthDef('vfb', mk('vfb', ann_b), rates=rates, **kw).as_bytes())).hexdigest())
         except Exception as e:
             out.append('raised ' + type(e).__name__)
     acc.count('shared_argument_cases')
+    if pre is not None:
+        acc.count('shared_argument_cases_with_prepend_list')
+        if shared_pre != pre and out[0] == out[1]:
+            acc.violation('C20/residue/build-changed-a-list-of-the-caller',
+                          {'prepend_before': repr(pre), 'prepend_after': repr(shared_pre)[:300],
+                           'where': where})
     if out[0] != out[1]:
         acc.violation('C20/bytes-differ/build-arguments-shared-with-an-earlier-build',
                       {'first_annotations': ann_a, 'second_annotations': ann_b,
                        'rates': lags, 'rates_object_after_first_build': repr(shared),
+                       'prepend': repr(pre), 'prepend_object_after_first_build': repr(shared_pre)[:200],
                        'first_build_failed': first_fails, 'with_shared': out[0],
                        'with_fresh': out[1], 'where': where})
 
